@@ -36,7 +36,7 @@ else
 fi
 for p in $(python3 -c "import json;print(' '.join(c['property_id'] for c in json.load(open('/verif/MANIFEST.json'))['checks']))"); do
   if [ "${SEED_ONLY:-}" != "" ] && [ "$p" != "${id:0:3}" ]; then continue; fi
-  r=$(/verif/bin/sigverif -repo "$target" check $p 2>&1); rc=$?
+  r=$(${SIGVERIF:-/verif/bin/sigverif} -repo "$target" check $p 2>&1); rc=$?
   echo "== $p exit=$rc" >> "$out"
   echo "$r" | grep -E "^VIOLATION|^KNOWN|GENERATOR" | cut -c1-300 >> "$out"
 done
